@@ -27,6 +27,41 @@ type shared struct {
 	err error
 }
 
+// connWitness is a logger of node A: it counts, per peer, the connections the node's network
+// layer reports as established and as terminated. It is the independent witness for "the
+// connection was lost" (a node monitor may fire exactly then), also for losses this test did
+// not cause.
+type connWitness struct {
+	mu       sync.Mutex
+	up, down map[gen.Atom]int
+}
+
+func (w *connWitness) Log(m gen.MessageLog) {
+	if len(m.Args) == 0 {
+		return
+	}
+	name, ok := m.Args[0].(gen.Atom)
+	if !ok {
+		return
+	}
+	w.mu.Lock()
+	defer w.mu.Unlock()
+	switch {
+	case strings.HasPrefix(m.Format, "new connection with %s"):
+		w.up[name]++
+	case strings.HasPrefix(m.Format, "connection with %s") && strings.Contains(m.Format, "terminated"):
+		w.down[name]++
+	}
+}
+func (w *connWitness) Terminate() {}
+func (w *connWitness) counts(name gen.Atom) (int, int) {
+	w.mu.Lock()
+	defer w.mu.Unlock()
+	return w.up[name], w.down[name]
+}
+
+var witness = &connWitness{up: map[gen.Atom]int{}, down: map[gen.Atom]int{}}
+
 var (
 	shOnce sync.Once
 	sh     shared
@@ -35,7 +70,10 @@ var (
 func nodeA() (*shared, error) {
 	shOnce.Do(func() {
 		sh.hub = netkit.NewHub()
-		sh.a, sh.err = netkit.StartNetNode(sh.hub, netkit.NetNodeName("c14a"), "cookie-c14")
+		sh.a, sh.err = netkit.StartNetNode(sh.hub, netkit.NetNodeName("c14a"), "cookie-c14", func(o *gen.NodeOptions) {
+			o.Log.Level = gen.LogLevelInfo
+			o.Log.Loggers = append(o.Log.Loggers, gen.Logger{Name: "verif-conn-witness", Logger: witness})
+		})
 		time.Sleep(1100 * time.Millisecond) // every B gets another incarnation second than A
 	})
 	return &sh, sh.err
@@ -295,6 +333,11 @@ func propFaults(t *rapid.T) {
 	if _, err := s.a.Network().Node(bname); err == nil {
 		kit.WaitUntil(2*time.Second, func() bool { _, err := b.Network().Node(s.a.Name()); return err == nil })
 	}
+	// a connection that came up and went down again before the fault (for reasons of its own) has
+	// already told the observers so - rightly; what the fault does afterwards is another case
+	if ups, downs := witness.counts(bname); fault != 4 && fault != 5 && (downs > 0 || ups > 1) {
+		t.Skipf("inconclusive: the connection to B was established %d times and lost %d times before the fault", ups, downs)
+	}
 	// the fault
 	var trafficBefore uint64
 	reasonOK := []error{gen.ErrNoConnection}
@@ -403,6 +446,9 @@ func propFaults(t *rapid.T) {
 			}
 			if i := rn.Info(); i.MessagesIn+i.MessagesOut < trafficBefore {
 				continue // ... and has been re-established since
+			}
+			if _, downs := witness.counts(bname); downs > 0 {
+				continue // (the node's own record of it)
 			}
 		}
 		if len(o.reasons) != expect {
